@@ -218,6 +218,15 @@ class HostileInjector(Oracle):
             pair = wc.initial_keys(self.mon.initial_dcids[ch.choose(len(self.mon.initial_dcids))], other)
             keys = pair[0] if sender.is_client else pair[1]
         payload = gen_payload(ch, self.ctx(target))
+        if ptype == "0rtt" and ch.choose(2):
+            # frames a client must not (or would not normally) send as early data, with small plausible fields
+            k = ch.choose(8)
+            odd = (wf.encode_retire_connection_id(ch.choose(3)), wf.encode_ack([(0, ch.choose(4))], 0),
+                   wf.encode_crypto(0, _bytes(ch, 1 + ch.choose(40))), wf.encode_handshake_done(),
+                   wf.encode_new_token(_bytes(ch, 1 + ch.choose(20))), wf.encode_path_response(_bytes(ch, 8)),
+                   wf.encode_new_connection_id(1 + ch.choose(3), ch.choose(2), _bytes(ch, 8), _bytes(ch, 16)),
+                   wf.encode_path_challenge(_bytes(ch, 8)))[k]
+            payload = (odd + payload, payload + odd, odd)[ch.choose(3)][:1100]
         pn_len = (2, 2, 1, 3, 4)[ch.choose(5)]
         jump = (1, 1, 2, 50, 70000)[ch.choose(5)]
         space = {"initial": "initial", "handshake": "handshake", "0rtt": "app", "1rtt": "app"}[ptype]
